@@ -8,7 +8,11 @@
     }
     func (e *EntityMap) UnmarshalJSON(b []byte) error {
         var s []Entity; json.Unmarshal(b, &s)
-        res := EntityMap{}; for _, e := range s { res[e.UID] = e }   // duplicate UIDs: the LAST entry wins, no error
+        res := EntityMap{}
+        for _, e := range s {
+            if _, ok := res[e.UID]; ok { return fmt.Errorf("duplicate entity %v", e.UID) }   // a UID may be named once
+            res[e.UID] = e
+        }
         *e = res
     }
 
@@ -38,8 +42,8 @@ def sortEntities (es : Entities) : Entities := es.foldr insertEnt []
 def encodeEntityMap (es : Entities) : J :=
   if es.isEmpty then .null else .arr ((sortEntities es).map encodeEntity)
 
-/-- `EntityMap.UnmarshalJSON` (= `decodeEntities`: array of entities folded into a map, later entries replace earlier
-    ones with the same UID; `null` gives the empty map) -/
+/-- `EntityMap.UnmarshalJSON` (= `decodeEntities`: array of entities entered into a map one by one, a second entry for a
+    UID already present is an error; `null` gives the empty map) -/
 def decodeEntityMap (j : J) : R Entities := decodeEntities j
 
 /-- decode, then encode again: what a second `json.Marshal` prints for an accepted document -/
